@@ -30,7 +30,7 @@ var (
 )
 
 type Case struct {
-	Kind  string // abort-close abort-reset iofault hello-mutation hello-truncation h2-mutation plain-http stall slow-reader slow-backend h2-flood
+	Kind  string // abort-close abort-reset iofault hello-mutation hello-truncation h2-mutation plain-http stall slow-reader slow-backend abort-many h2-flood
 	Proto string // h1 h2
 	K     int    // byte offset / op index / mutation index
 	Err   string // for iofault
@@ -244,6 +244,29 @@ func Run(t *testing.T, cs Case, opts bubble.StackOpts, hello []byte, oracle func
 				cl.ResumeReads()
 				synctest.Wait()
 				cl.Close()
+			}
+		case "abort-many":
+			// K requests in flight on one h2 connection, each handler blocked writing a large response into the client's
+			// closed flow-control window; then the client goes away (Val 0: close, 1: reset): K handlers fail at once, after
+			// the connection's serve loop has ended
+			st.Backend.Respond = func(r *bubble.RecReq) *bubble.Resp {
+				if r.Path == "/many" {
+					return &bubble.Resp{Status: 200, Body: make([]byte, 200000)}
+				}
+				return nil
+			}
+			cl = st.Connect("victim", nil, HelloH2)
+			synctest.Wait()
+			cl.StartH2()
+			synctest.Wait()
+			for i := 0; i < cs.K; i++ {
+				cl.SendH2(uint32(1+2*i), bubble.Req{Path: "/many", Host: "localhost"})
+			}
+			synctest.Wait()
+			if cs.Val == 0 {
+				cl.Abort(nil)
+			} else {
+				cl.Abort(syscall.ECONNRESET)
 			}
 		case "slow-backend":
 			// the backend takes K seconds to answer - past the proxy's write / read / idle timeouts when K is large enough.
